@@ -11,6 +11,7 @@ import Rl4co.Proofs.Sort
 import Rl4co.Proofs.TspfamParams
 
 namespace Rl4co.Tsp
+open Rl4co.Tspfam
 
 /-- **C06 (TSP), completeness.** -/
 theorem check_complete (i : Inst) {as : List Nat} (hf : Spec.Tsp.Feasible i.n as) :
@@ -47,6 +48,24 @@ clause is what the checker itself does not enforce — the known finding.) -/
 theorem feasible_iff_check_and_width (i : Inst) (as : List Nat) :
     Spec.Tsp.Feasible i.n as ↔ (check i as = true ∧ as.length = i.n) :=
   ⟨fun hf => ⟨check_complete i hf, hf.length_eq⟩, fun ⟨hc, hl⟩ => check_sound_partial i hl hc⟩
+
+/-- **C06 (TSP), repaired clause**: the checker model that takes the number of nodes from the INSTANCE
+(`checkWith true`) is sound and complete: it accepts exactly the feasible tours. -/
+theorem checkWith_true_iff (i : Inst) (as : List Nat) :
+    checkWith true i as = true ↔ Spec.Tsp.Feasible i.n as := by
+  rw [checkWith_true_eq, Bool.and_eq_true, decide_eq_true_eq, sortedIsRange_iff, Spec.Tsp.feasible_iff_perm]
+  constructor
+  · exact fun h => h.2
+  · intro h; exact ⟨by simpa using h.length_eq, h⟩
+
+/-- today's width source (the known finding): the width of the action tensor -/
+theorem width_source_is_action_tensor : Params.tspCheckWidthFromInst = false := rfl
+
+/-- verifying a maintainer's fix by one probe: IF the extracted width source is the instance, the checker as
+written is sound and complete (the premise is false of today's source, see above) -/
+theorem check_sound_complete_of_fixed (hfix : Params.tspCheckWidthFromInst = true) (i : Inst) (as : List Nat) :
+    check i as = true ↔ Spec.Tsp.Feasible i.n as := by
+  rw [check, hfix]; exact checkWith_true_iff i as
 
 /-- Non-vacuity. -/
 example : check ⟨3, fun _ _ => 0⟩ [2, 0, 1] = true :=
